@@ -248,6 +248,127 @@ def check_gradient(ctx, db):
     ctx.check(ok, 'R-SHAPE', 'SubPath::eval/linear-extrapolation', ev.loc(), 'below 0 and above 1 the position continues along the end gradient', 'extrapolation blocks: %s' % t)
 
 
+def check_trafo_algebra(ctx, db):
+    """The 2x3 path transform (trafo) methods as polynomial identities: after each method the stored matrix maps a
+    generic section point q to Op(old matrix applied to q), where Op is the documented map of the method; and
+    RobustPath::transform composes to  origin + R(rotation) diag(1, +-1) (magnification x)."""
+    from .. import symdiff as S
+
+    class TA(S.Algebra):
+        pass
+
+    def run_method(alg, qn, env, args, depth=0):
+        f = db.fn(qn)
+        if depth > 4:
+            raise S.Unsupported('call depth')
+        loc = dict(env_shared=env)
+        local = {}
+        for p_, a in zip(f.params, args):
+            local[p_['n']] = a
+
+        def lookup(e):
+            merged = dict(env)
+            merged.update(local)
+            return alg.value(e, merged)
+
+        def do(stmts):
+            for s_ in stmts:
+                if s_ is None:
+                    continue
+                if s_.k == 'CompoundStmt':
+                    do(s_.c)
+                elif s_.k == 'DeclStmt':
+                    for v in s_.c:
+                        if v is not None and v.k == 'VarDecl' and v.child('init') is not None:
+                            local[v.n] = lookup(v.child('init'))
+                elif s_.k == 'IfStmt':
+                    touches = any((x.k == 'ArraySubscriptExpr' and 'trafo' in x.text()) or x.k == 'CXXMemberCallExpr' for b_ in (s_.child('then'), s_.child('else')) if b_ is not None for x in b_.walk())
+                    if not touches:
+                        continue   # width/offset bookkeeping only: not part of the matrix
+                    c = lookup(s_.child('cond'))
+                    if alg.isvec(c) or not S.is_const(c):
+                        raise S.Unsupported('symbolic branch in %s' % qn)
+                    br = s_.child('then') if c else s_.child('else')
+                    if br is not None:
+                        do([br])
+                elif s_.k == 'CXXMemberCallExpr':
+                    ob = _strip_casts(s_.child('obj')) if s_.child('obj') is not None else None
+                    if ob is not None and ob.k != 'CXXThisExpr':
+                        raise S.Unsupported('call on another object in %s' % qn)
+                    run_method(alg, s_.callee, env, [lookup(a) for a in s_.args], depth + 1)
+                elif s_.k == 'ForStmt':
+                    continue   # per-element loops (end extensions): not part of the matrix
+                elif (is_assign(s_) or s_.k == 'CompoundAssignOperator'):
+                    l = _strip_casts(s_.child('lhs'))
+                    if l.k == 'ArraySubscriptExpr':
+                        base = _strip_casts(l.child('base') or l.c[0])
+                        idx = _strip_casts(l.child('idx') or l.c[1])
+                        key = '%s[%d]' % (base.n, idx.cv)
+                    elif l.k == 'MemberExpr' and l.n in ('offset_scale', 'width_scale'):
+                        continue
+                    else:
+                        raise S.Unsupported('store to %s in %s' % (l.text()[:30], qn))
+                    val = lookup(s_.child('rhs'))
+                    cur = env[key]
+                    if s_.op == '=':
+                        env[key] = val
+                    elif s_.op == '*=':
+                        env[key] = S.mul(cur, val)
+                    elif s_.op == '+=':
+                        env[key] = S.add(cur, val)
+                    elif s_.op == '-=':
+                        env[key] = S.add(cur, val, -1)
+                    else:
+                        raise S.Unsupported('operator %s' % s_.op)
+                else:
+                    raise S.Unsupported('statement %s in %s' % (s_.k, qn))
+        do(f.body.c)
+
+    def apply(alg, env, q):
+        x = S.add(S.add(S.mul(env['trafo[0]'], q[1]), S.mul(env['trafo[1]'], q[2])), env['trafo[2]'])
+        y = S.add(S.add(S.mul(env['trafo[3]'], q[1]), S.mul(env['trafo[4]'], q[2])), env['trafo[5]'])
+        return alg.vec(x, y)
+
+    def fresh(alg):
+        return {'trafo[%d]' % i: S.atom('t%d' % i) for i in range(6)}
+    q = None
+    cases = []
+    # (method, argument values builder, expected map on a point r = old(q))
+    def rot(alg, r, ang):
+        C_, Sn = alg.fatom('cos', ang), alg.fatom('sin', ang)
+        return alg.vec(S.add(S.mul(C_, r[1]), S.mul(Sn, r[2]), -1), S.add(S.mul(Sn, r[1]), S.mul(C_, r[2])))
+    n = 0
+    specs = [
+        ('gdstk::RobustPath::translate', lambda alg: [alg.vec(S.atom('vx'), S.atom('vy'))], lambda alg, r: alg.vadd(r, alg.vec(S.atom('vx'), S.atom('vy'))), 'r + v', {}),
+        ('gdstk::RobustPath::simple_scale', lambda alg: [S.atom('k')], lambda alg, r: alg.vmul(r, S.atom('k')), 'k r', {}),
+        ('gdstk::RobustPath::scale', lambda alg: [S.atom('k'), alg.vec(S.atom('cx'), S.atom('cy'))], lambda alg, r: alg.vadd(alg.vmul(alg.vadd(r, alg.vec(S.atom('cx'), S.atom('cy')), -1), S.atom('k')), alg.vec(S.atom('cx'), S.atom('cy'))), 'c + k (r - c)', {}),
+        ('gdstk::RobustPath::simple_rotate', lambda alg: [S.atom('angle')], lambda alg, r: rot(alg, r, S.atom('angle')), 'R(angle) r', {}),
+        ('gdstk::RobustPath::rotate', lambda alg: [S.atom('angle'), alg.vec(S.atom('cx'), S.atom('cy'))], lambda alg, r: alg.vadd(rot(alg, alg.vadd(r, alg.vec(S.atom('cx'), S.atom('cy')), -1), S.atom('angle')), alg.vec(S.atom('cx'), S.atom('cy'))), 'c + R(angle) (r - c)', {}),
+        ('gdstk::RobustPath::x_reflection', lambda alg: [], lambda alg, r: alg.vec(r[1], S.mul(r[2], S.P(-1))), '(x, -y)', {}),
+    ]
+    for g in (0, 1):
+        specs.append(('gdstk::RobustPath::transform', (lambda g_: lambda alg: [S.atom('M'), S.P(g_), S.atom('b'), alg.vec(S.atom('ox'), S.atom('oy'))])(g),
+                      (lambda g_: lambda alg, r: alg.vadd(rot(alg, alg.vec(S.mul(S.atom('M'), r[1]), S.mul(S.mul(S.atom('M'), r[2]), S.P(-1 if g_ else 1))), S.atom('b')), alg.vec(S.atom('ox'), S.atom('oy'))))(g),
+                      'origin + R(rotation) diag(1, %s1) magnification r' % ('-' if g else '+'), {'g': g}))
+    for qn, mkargs, expect, what, tag in specs:
+        f = db.fn(qn)
+        ctx.touch(f)
+        alg = TA(db, None)
+        env = fresh(alg)
+        qv = alg.vec(S.atom('qx'), S.atom('qy'))
+        old = apply(alg, env, qv)
+        try:
+            run_method(alg, qn, env, mkargs(alg))
+        except S.Unsupported as e:
+            raise AnalysisBroken('%s is outside the algebra: %s' % (qn, e))
+        got = apply(alg, env, qv)
+        want = expect(alg, old)
+        n += 1
+        ctx.check(alg.equal(got, want), 'R-ALGEBRA', '%s/matrix%s' % (qn.replace('gdstk::', ''), ('|x_refl=%d' % tag['g']) if tag else ''), f.loc(), 'the updated matrix maps every section point to %s of its previous image (r)' % what,
+                  'after %s the matrix maps q to %s, the documented map gives %s' % (qn.replace('gdstk::', ''), alg.render(got)[:260], alg.render(want)[:260]))
+    ctx.require('R-ALGEBRA trafo methods', n, 8)
+
+
 def run(ctx):
     db = ctx.db
     check_bookkeeping(ctx, db)
@@ -266,6 +387,7 @@ def run(ctx):
     check_units(ctx, db)
     check_exhaust(ctx, db)
     check_gradient(ctx, db)
+    check_trafo_algebra(ctx, db)
     f = db.fn('gdstk::RobustPath::commands')
     ctx.touch(f)
     n, table = consume.check_commands(ctx, f)
@@ -274,7 +396,7 @@ def run(ctx):
 
 
 MANIFEST = dict(
-    text='Decides structural necessary conditions of RobustPath consistency on every path: each section append is followed by exactly one fill_widths_and_offsets, which gives every element one width and one offset entry on all four branch combinations; no builder reads the path transform (frame discipline); the four point samplers, the four intersection searches and the four parameter-query prologues are clone families evaluating only their own side, with the sampler step clamped to the section end; look-ahead iterators advance with their loops in to_polygons/element_center/spine and the trailing cursors of the parallel section/offset/width arrays jump together; the OASIS PATH half-width is half and the GDSII WIDTH the full interpolated width; SubPathType/InterpolationType/EndType switches are exhaustive (defaults frozen); RobustPath::commands consumes exactly the operands its guard and advance constants state; SubPath::gradient is, symbolically, the derivative of SubPath::eval for segment, arc, quadratic and cubic sections, under the same linear transform. Sampling accuracy, intersection convergence and cap geometry are not decided.',
+    text='Decides structural necessary conditions of RobustPath consistency on every path: each section append is followed by exactly one fill_widths_and_offsets, which gives every element one width and one offset entry on all four branch combinations; no builder reads the path transform (frame discipline); the four point samplers, the four intersection searches and the four parameter-query prologues are clone families evaluating only their own side, with the sampler step clamped to the section end; look-ahead iterators advance with their loops in to_polygons/element_center/spine and the trailing cursors of the parallel section/offset/width arrays jump together; the OASIS PATH half-width is half and the GDSII WIDTH the full interpolated width; SubPathType/InterpolationType/EndType switches are exhaustive (defaults frozen); RobustPath::commands consumes exactly the operands its guard and advance constants state; SubPath::gradient is, symbolically, the derivative of SubPath::eval for segment, arc, quadratic and cubic sections, under the same linear transform; the path-matrix methods translate, simple_scale, scale, simple_rotate, rotate, x_reflection and transform (both reflection states) update the 2x3 matrix so that, identically, every section point is mapped to the documented image of its previous image. Sampling accuracy, intersection convergence and cap geometry are not decided.',
     note='Trusted: clang front end, gx, sa rules. The direct-builder set is discovered (methods appending to subpath_array) and compared with the confirmed list, so a new builder is reported until it is paired and listed.',
     technique='post-dominance pairing over the CFG + who-may-read effect rule + clone families with callee abstraction + look-ahead iterator rule + operand-consumption tables',
     design='§4 C08')
